@@ -20,37 +20,90 @@ Print Assumptions C06_cache_invariant.
 
 (* Cache coherence, for EVERY registry whose colliding instances are
    interchangeable and every history: a read returns exactly what a dataset
-   with the same data/configuration and an empty cache returns, provided the
-   cache did not change which recipe is selected (guard 1; excludes finding
-   C06-cached-stays-listed) and the selected recipe has stored required
-   features, reads only hashed ingredients and is a generic method or the
-   full 3-channel crosstalk correction (guard 2;
-   excludes the staleness findings). md5 is modelled as injective. *)
+   with the same data/configuration and an empty cache returns, provided
+   (guard 1) the cache did not change which recipe is selected (excludes
+   finding C06-cached-stays-listed) and (guard 2, [coherent_recipe]) the
+   selected recipe has stored required features, reads only ingredients that
+   are in its cache key (required features/keys or the hashed req_func
+   result), and its method is generic or the full 3-channel crosstalk
+   correction. md5 is modelled as injective. Not covered: required features
+   that are themselves computed (chains), compute_emodulus. *)
 Theorem C06_read_coherent_flat_partial :
   forall reg b ops f,
     collide_ok reg = true ->
     let st := run_state reg (fresh b) ops in
-    select AF reg st f = select AF reg (clear st) f ->
-    (forall r, select AF reg st f = Some r ->
-       forallb (in_base (s_base st)) (r_feats r) = true
-       /\ uses_covered r = true /\ plain_method r = true
-       /\ rf_hashed r = false /\ r_extra r = []) ->
+    select SF reg st f = select SF reg (clear st) f ->
+    (forall r, select SF reg st f = Some r ->
+       coherent_recipe (s_base st) r = true) ->
     snd (read RF reg st f) = snd (read RF reg (clear st) f).
 Proof. exact history_read_coherent. Qed.
 Print Assumptions C06_read_coherent_flat_partial.
 
-(* ... instantiated with the generated table: for every recipe outside the
-   known findings the guards reduce to "stored required features". *)
+(* ... instantiated with the generated table: every recipe except the five
+   emodulus and the six 2-channel crosstalk instances (the listed findings)
+   satisfies guard 2 as soon as its required features are stored; this
+   includes ml_class and bright_bc_*/bright_perc_* (hashed req_func result)
+   since their repair. *)
 Theorem C06_read_coherent_registry_partial :
   forall b ops f,
     let st := run_state registry (fresh b) ops in
-    select AF registry st f = select AF registry (clear st) f ->
-    (forall r, select AF registry st f = Some r ->
+    select SF registry st f = select SF registry (clear st) f ->
+    (forall r, select SF registry st f = Some r ->
        forallb (in_base (s_base st)) (r_feats r) = true
        /\ known_incomplete r = false) ->
     snd (read RF registry st f) = snd (read RF registry (clear st) f).
 Proof. exact registry_read_coherent. Qed.
 Print Assumptions C06_read_coherent_registry_partial.
+
+(* What the fresh dataset returns is the specification: the recipe's method
+   applied to the CURRENT value of every ingredient the method reads. *)
+Theorem C06_fresh_read_is_method_on_current_inputs :
+  forall reg b f r,
+    feat_raw b f = None -> select SF reg (fresh b) f = Some r ->
+    forallb (in_base b) (r_feats r) = true -> plain_method r = true ->
+    snd (read RF reg (fresh b) f) = Ok (spec_value reg b r f).
+Proof. exact read_fresh_is_spec. Qed.
+Print Assumptions C06_fresh_read_is_method_on_current_inputs.
+
+(* "Reported as available exactly when reading succeeds", positive part: on
+   ANY state, for any registry, `feat in ds` is True iff ds[feat] returns a
+   value, provided a cached feature is still selectable (excludes finding
+   C06-cached-stays-listed) and the selected recipe has stored required
+   features and a method that cannot reject its inputs (excludes
+   compute_emodulus and the 2-channel crosstalk correction, see the
+   refutations below). *)
+Theorem C06_available_iff_readable_partial :
+  forall reg st f,
+    (has f (s_cache st) = true ->
+     in_base (s_base st) f = true \/ select SF reg st f <> None) ->
+    (forall r, select SF reg st f = Some r ->
+       forallb (in_base (s_base st)) (r_feats r) = true
+       /\ plain_method r = true) ->
+    (contains AF reg st f = true <-> exists v, snd (read RF reg st f) = Ok v).
+Proof. exact available_iff_readable. Qed.
+Print Assumptions C06_available_iff_readable_partial.
+
+Theorem C06_available_iff_readable_registry_partial :
+  forall st f,
+    (has f (s_cache st) = true ->
+     in_base (s_base st) f = true \/ select SF registry st f <> None) ->
+    (forall r, select SF registry st f = Some r ->
+       forallb (in_base (s_base st)) (r_feats r) = true
+       /\ known_incomplete r = false) ->
+    (contains AF registry st f = true
+     <-> exists v, snd (read RF registry st f) = Ok v).
+Proof. exact registry_available_iff_readable. Qed.
+Print Assumptions C06_available_iff_readable_registry_partial.
+
+(* Pinned declarations: the emodulus, crosstalk and time recipes of the tree
+   under test declare at least the required features/keys (same name and
+   priority) that the reviewed tree declared -- dropping a declared key from
+   a cache key breaks this theorem. *)
+Theorem C06_registry_declares_baseline :
+  forall b, In b baseline ->
+    exists r, In r registry /\ declares_at_least b r = true.
+Proof. exact registry_declares_baseline. Qed.
+Print Assumptions C06_registry_declares_baseline.
 
 (* Registry completeness (bound: the generated table; ingredients observed in
    the traced environments): every recipe not named by a known finding reads
@@ -62,7 +115,7 @@ Proof. exact registry_complete_partial. Qed.
 Print Assumptions C06_registry_complete_partial.
 
 (* The unguarded statement is false of today's table (emodulus, 2-channel
-   fl*_max_ctc, bright_bc_*/bright_perc_*, ml_class). *)
+   fl*_max_ctc). *)
 Theorem C06_registry_complete_refuted :
   exists r, In r registry /\ uses_declared r = false.
 Proof. exact registry_complete_refuted. Qed.
